@@ -13,6 +13,15 @@ Parses the CURRENT $UP_REPO source with `ast` only (nothing is imported or execu
                                       recursively `Base._clone_to(self, new, ...)` / `self._clone_to(new)`
   ctor_args       (class, parameter)  the __init__ parameters that clone() passes to the constructor of the new object
   immutable_shared (class, attribute, required ctor parameter or "")  HAND-MAINTAINED below, with the justification
+  copy_depth      (class, attribute, n)  how many levels of NEW containers/objects the expression clone() assigns creates:
+                                      0 = the original's own object (`self._x`), 1 = `self._x[:]`, `.copy()`, `list(..)`,
+                                      a comprehension whose element is the original's, 1+d = a comprehension whose
+                                      element/value expression has depth d (`[e.clone() for e in el]` = 2,
+                                      `{t: [e.clone() for e in el] for t, el in ...}` = 3), 9 = `self._x.clone()` /
+                                      re-built through the new object's own API; the MINIMUM over all writes
+  required_depth  (class, attribute, n)  nesting of MUTABLE levels declared by the annotation in __init__
+                                      (`Dict[Timing, List[Effect]]` = 3: dict, lists, Effect objects; `List[FNode]` = 1)
+  shallow_accepted (class, attribute) HAND-MAINTAINED below: attributes whose copy is shallower than declared, and why
 
 Fail closed: a statement or expression outside the whitelisted shapes is a hard error (exit 2), and so is an attribute
 written by clone() that no __init__ initialises.
@@ -118,6 +127,21 @@ IMMUTABLE_SHARED = {
     ("Process", "_name"): ("_name", "immutable str"),
     ("Process", "_parameters"): ("_parameters", "rebuilt by the constructor from the (name, type) pairs"),
 }
+# classes whose instances are MUTABLE objects (a container of them must clone its elements)
+MUTABLE_ELEMENTS = {"Action", "InstantaneousAction", "DurativeAction", "SensingAction", "Event", "Process", "Agent",
+                    "Activity", "Method", "Effect", "Chronicle", "TaskNetwork", "MAEnvironment"}
+CONTAINERS = {"Dict", "List", "Set", "OrderedDict", "dict", "list", "set", "Iterable"}
+
+# HAND-MAINTAINED: attributes copied less deeply than their declaration asks for, and why that is (or is not) harmless
+SHALLOW_ACCEPTED = {
+    ("*", "_user_types_hierarchy"): "dead attribute: never written after __init__ (user_types_hierarchy is recomputed)",
+    ("ContingentProblem", "_or_initial_constraints"): "the inner lists are created by add_or_initial_constraint / "
+                                                      "add_unknown_initial_constraint and never mutated afterwards",
+    ("ContingentProblem", "_oneof_initial_constraints"): "the inner lists are created by add_oneof_initial_constraint and "
+                                                         "never mutated afterwards",
+    ("HierarchicalProblem", "_methods"): "OPEN FINDING C22-HTN-METHODS-ALIAS-ACTIONS: the Method objects are shared with "
+                                         "the clone (theorem C22_htn_methods_alias_original_actions_refuted)",
+}
 # ---------------------------------------------------------------------------------------------------------------------
 
 
@@ -199,10 +223,76 @@ def local_target(t):
     return False
 
 
+# ------------------------------------------------------------------------------------------ depth of declarations / copies
+def ann_depth(ann):
+    """number of nested MUTABLE levels a type annotation declares (0: immutable / not a container)"""
+    if ann is None:
+        return 0
+    if isinstance(ann, ast.Constant) and isinstance(ann.value, str):
+        try:
+            ann = ast.parse(ann.value, mode="eval").body
+        except SyntaxError:
+            return 0
+    if isinstance(ann, ast.Subscript):
+        head = ann.value.attr if isinstance(ann.value, ast.Attribute) else getattr(ann.value, "id", "")
+        args = ann.slice.elts if isinstance(ann.slice, ast.Tuple) else [ann.slice]
+        if head == "Optional":
+            return ann_depth(args[0])
+        if head in CONTAINERS:
+            return 1 + ann_depth(args[-1])          # Dict[K, V]: the values; List[T] / Set[T]: the elements
+        return 0
+    name = ann.attr if isinstance(ann, ast.Attribute) else getattr(ann, "id", "")
+    return 1 if name in MUTABLE_ELEMENTS else 0
+
+
+def is_self_rooted(e):
+    """self._x, self.prop, self.ma_environment._x"""
+    while isinstance(e, ast.Attribute):
+        e = e.value
+    return isinstance(e, ast.Name) and e.id == "self"
+
+
+def copy_depth(e, bound):
+    """levels of new containers/objects created by expression e; `bound` = comprehension variables that stand for
+    (parts of) the original's content"""
+    if isinstance(e, ast.Attribute) and is_self_rooted(e):
+        return 0
+    if isinstance(e, ast.Name):
+        return 0 if e.id in bound else 9            # a local built by clone itself / a parameter: not the original's
+    if isinstance(e, ast.Subscript) and isinstance(e.slice, ast.Slice):
+        return 1 if copy_depth(e.value, bound) == 0 else 9
+    if isinstance(e, ast.Call):
+        f = e.func
+        if isinstance(f, ast.Attribute) and f.attr == "copy" and not e.args:
+            return 1 if copy_depth(f.value, bound) == 0 else 9
+        if isinstance(f, ast.Attribute) and f.attr == "clone":
+            return 9
+        if isinstance(f, ast.Name) and f.id in ("list", "dict", "set") and len(e.args) == 1:
+            return 1 if copy_depth(e.args[0], bound) == 0 else 9
+        return 9                                    # some other constructor / call: a new object
+    if isinstance(e, (ast.ListComp, ast.SetComp, ast.DictComp, ast.GeneratorExp)):
+        b = set(bound)
+        for g in e.generators:
+            for n in ast.walk(g.target):
+                if isinstance(n, ast.Name):
+                    b.add(n.id)
+        elt = e.value if isinstance(e, ast.DictComp) else e.elt
+        return min(9, 1 + copy_depth(elt, b))
+    if isinstance(e, ast.Constant):
+        return 9
+    return 9
+
+
+_decl_depth = {}          # (class, attribute) -> declared depth (the annotation met in the __init__ chain of that class)
+
+
 # ------------------------------------------------------------------------------------------ __init__ / setters
-def written_self_attrs(fn, cname, fname, follow_init):
-    """attributes `self.X = ...` written by the body of fn (an __init__ or a property setter)"""
+def written_self_attrs(fn, cname, fname, follow_init, depths=None):
+    """attributes `self.X = ...` written by the body of fn (an __init__ or a property setter); `depths` collects the
+    declared depth of the annotated ones (a later annotation of the same attribute in the same chain overrides)"""
     out = []
+    if depths is None:
+        depths = {}
 
     def stmts(body):
         for s in body:
@@ -214,6 +304,8 @@ def written_self_attrs(fn, cname, fname, follow_init):
                     if is_self_attr(t):
                         if t.attr not in out:
                             out.append(t.attr)
+                        if isinstance(s, ast.AnnAssign):
+                            depths[t.attr] = ann_depth(s.annotation)
                     elif isinstance(t, ast.Subscript) and is_self_attr(t.value):
                         pass                                  # self._x[k] = v : fills a container initialised above
                     elif local_target(t):
@@ -236,6 +328,8 @@ def written_self_attrs(fn, cname, fname, follow_init):
                     for a in init_fields(b):
                         if a not in out:
                             out.append(a)
+                    for a, d in _init_depths[b].items():
+                        depths[a] = d
                     continue
                 die(s, "call statement not understood: %s" % ast.unparse(s)[:80], fname)
             if isinstance(s, (ast.If, ast.For)):
@@ -256,6 +350,7 @@ def written_self_attrs(fn, cname, fname, follow_init):
 
 
 _init_cache = {}
+_init_depths = {}
 
 
 def init_fields(cname):
@@ -265,8 +360,10 @@ def init_fields(cname):
     if r is None:
         raise Unsupported("no __init__ found for %s" % cname)
     fn, owner = r
-    res = written_self_attrs(fn, owner, FILES[owner], follow_init=True)
+    depths = {}
+    res = written_self_attrs(fn, owner, FILES[owner], follow_init=True, depths=depths)
     _init_cache[cname] = res
+    _init_depths[cname] = depths
     return res
 
 
@@ -288,30 +385,36 @@ def setter_fields(cname, prop, node, fname):
 
 
 # ------------------------------------------------------------------------------------------ clone / _clone_to
+DEPTHS = {}               # (class, attribute) -> minimal copy depth over all the writes
+LOOPVARS = set()          # statement-level loop variables met in clone bodies (they range over the original's content)
+
+
 def clone_writes(cname, fn, owner, newvar, acc, ctor):
     """walk the body of clone (newvar=None: found at the constructor call) or _clone_to (newvar = 2nd parameter)"""
     fname = FILES[owner]
     state = {"new": newvar}
 
-    def record(cls, attr):
+    def record(cls, attr, depth=9):
         if (cls, attr) not in acc:
             acc.append((cls, attr))
+        DEPTHS[(cls, attr)] = min(DEPTHS.get((cls, attr), 9), depth)
 
     def assign(s, t):
         new = state["new"]
         if isinstance(t, ast.Attribute) and isinstance(t.value, ast.Name) and new is not None and t.value.id == new:
+            d = copy_depth(s.value, set()) if s.value is not None else 9
             if t.attr.startswith("_"):
-                record(cname, t.attr)
+                record(cname, t.attr, d)
             else:
                 for a in setter_fields(cname, t.attr, s, fname):
-                    record(cname, a)
+                    record(cname, a, d)
             return
         if (isinstance(t, ast.Attribute) and isinstance(t.value, ast.Attribute) and isinstance(t.value.value, ast.Name)
                 and new is not None and t.value.value.id == new and t.value.attr in SUBOBJECT_PROPERTIES):
             holder, _cls = SUBOBJECT_PROPERTIES[t.value.attr]
             if not t.attr.startswith("_"):
                 die(s, "sub-object property assignment", fname)
-            record("%s.%s" % (cname, holder), t.attr)
+            record("%s.%s" % (cname, holder), t.attr, copy_depth(s.value, set()) if s.value is not None else 9)
             return
         if isinstance(t, ast.Attribute) and isinstance(t.value, ast.Name) and t.value.id == "self":
             die(s, "clone() writes an attribute of the ORIGINAL: %s" % ast.unparse(t), fname)
@@ -381,7 +484,8 @@ def clone_writes(cname, fn, owner, newvar, acc, ctor):
                 if isinstance(f, ast.Attribute) and isinstance(f.value, ast.Name) and f.value.id == new \
                         and f.attr in WRITER_CALLS:
                     for a in WRITER_CALLS[f.attr]:
-                        record(cname, a)
+                        # new.add_action(x): a new list on the new object; its elements are as new as x is
+                        record(cname, a, min(9, 1 + copy_depth(c.args[0], LOOPVARS)) if c.args else 9)
                     continue
                 if isinstance(f, ast.Attribute) and isinstance(f.value, ast.Name) and f.value.id not in (new, "self") \
                         and f.attr in ("append", "add", "update", "extend"):
@@ -389,10 +493,14 @@ def clone_writes(cname, fn, owner, newvar, acc, ctor):
                 if isinstance(f, ast.Attribute) and f.attr in ("append", "add", "update", "extend") \
                         and isinstance(f.value, ast.Attribute) and isinstance(f.value.value, ast.Name) \
                         and f.value.value.id == new and f.value.attr.startswith("_"):
-                    record(cname, f.value.attr)               # new._x.append(e): fills the new object's container
-                    continue
+                    record(cname, f.value.attr, min(9, 1 + copy_depth(c.args[0], LOOPVARS)) if c.args else 9)
+                    continue                                  # new._x.append(e): fills the new object's container
                 die(s, "call statement not understood: %s" % ast.unparse(s)[:80], fname)
             if isinstance(s, (ast.If, ast.For)):
+                if isinstance(s, ast.For):
+                    for n in ast.walk(s.target):
+                        if isinstance(n, ast.Name):
+                            LOOPVARS.add(n.id)
                 stmts(s.body)
                 stmts(s.orelse)
                 continue
@@ -441,12 +549,29 @@ def translate():
     return all_fields, cloned, ctor, imm
 
 
+def depth_tables(all_fields, cloned):
+    copy = [(c, a, DEPTHS.get((c, a), 9)) for (c, a) in cloned]
+    def declared(c, a):
+        cls = SUBOBJECT_PROPERTIES["ma_environment"][1] if c.endswith("._env_ma") else c
+        init_fields(cls)
+        return _init_depths[cls].get(a, 0)
+    required = [(c, a, declared(c, a)) for (c, a) in all_fields if declared(c, a) > 0]
+    accepted = []
+    for (c, a) in all_fields:
+        for key in ((c, a), ("*", a)):
+            if key in SHALLOW_ACCEPTED:
+                accepted.append((c, a))
+                break
+    return copy, required, accepted
+
+
 def gstr(s):
     assert '"' not in s
     return '"%s"' % s
 
 
 def emit(all_fields, cloned, ctor, imm):
+    copy, required, accepted = depth_tables(all_fields, cloned)
     L = []
     L.append("(* GENERATED by tools/gen_clone.py from the clone()/__init__ methods under unified_planning/model -- do not edit; "
              "regenerated on every run. *)")
@@ -474,6 +599,12 @@ def emit(all_fields, cloned, ctor, imm):
     L.append("   justification there: shared by design, or (re)built by the constructor of the new object *)")
     table("immutable_shared", "string * string * string", imm,
           lambda r: "(%s, %s, %s)" % (gstr(r[0]), gstr(r[1]), gstr(r[2])))
+    L.append("(* (class, attribute, levels of new containers/objects the value assigned by clone() creates; 9 = cloned/re-built) *)")
+    table("copy_depth", "string * string * nat", copy, lambda r: "(%s, %s, %d)" % (gstr(r[0]), gstr(r[1]), r[2]))
+    L.append("(* (class, attribute, nested mutable levels declared by the annotation in __init__) *)")
+    table("required_depth", "string * string * nat", required, lambda r: "(%s, %s, %d)" % (gstr(r[0]), gstr(r[1]), r[2]))
+    L.append("(* hand-maintained in tools/gen_clone.py with the reason: copied less deeply than declared *)")
+    table("shallow_accepted", "string * string", accepted, lambda r: "(%s, %s)" % (gstr(r[0]), gstr(r[1])))
     L.append("Definition pair_eqb (a b : string * string) : bool := String.eqb (fst a) (fst b) && String.eqb (snd a) (snd b).")
     L.append("Definition mem_pair (x : string * string) (l : list (string * string)) : bool := existsb (pair_eqb x) l.")
     L.append("")
@@ -483,6 +614,12 @@ def emit(all_fields, cloned, ctor, imm):
     L.append("  mem_pair cf cloned_fields")
     L.append("  || existsb (fun r => pair_eqb cf (fst r) && (String.eqb (snd r) \"\" || mem_pair (fst cf, snd r) ctor_args))")
     L.append("             immutable_shared.")
+    L.append("")
+    L.append("(* a cloned attribute is copied deeply enough when every declared mutable level is re-created *)")
+    L.append("Definition depth_of (cf : string * string) : nat :=")
+    L.append("  match find (fun r => pair_eqb cf (fst r)) copy_depth with Some r => snd r | None => 0 end.")
+    L.append("Definition deep_enough (r : string * string * nat) : bool :=")
+    L.append("  negb (mem_pair (fst r) cloned_fields) || mem_pair (fst r) shallow_accepted || Nat.leb (snd r) (depth_of (fst r)).")
     L.append("")
     L.append("Definition fields_of (c : string) : list string := map snd (filter (fun cf => String.eqb (fst cf) c) all_fields).")
     L.append("Definition cloned_of (c : string) : list string := map snd (filter (fun cf => String.eqb (fst cf) c) cloned_fields).")
